@@ -86,30 +86,17 @@ example : stripedMax 2 (fun r => if r = 0 then [3, 9, 4] else ([] : List Nat)) =
 
 /-! ## `striped_array_mean` -/
 
-/-- full statement: for every non-empty data set the striped mean is the mean of the whole
-    array.  FALSE for the code as written (see the counterexample): the function asserts
-    `global_sum >= local_sum`, which fails as soon as another rank's values sum to a negative
-    number (known finding `striped-mean-negative-local-sum`). -/
-def C14_striped_mean_full : Prop :=
-  ∀ (w : Nat), 0 < w → ∀ (locals : Nat → List Rat) (xs : List Rat),
-    xs.Perm ((List.range w).flatMap locals) → xs ≠ [] →
-    stripedMean w locals = .ok (xs.sum / (xs.length : Rat))
-
-/-- proved part: when every local sum is non-negative (the situation of its only caller, the
-    mean of squared distances) the striped mean is the mean of the whole array. -/
-theorem striped_mean_eq_partial (w : Nat) (hw : 0 < w) (locals : Nat → List Rat) (xs : List Rat)
-    (hp : xs.Perm ((List.range w).flatMap locals)) (hne : xs ≠ [])
-    (hnn : ∀ r, r < w → 0 ≤ (locals r).sum) :
-    stripedMean w locals = .ok (xs.sum / (xs.length : Rat)) :=
-  stripedMean_eq w hw locals xs hp hne hnn
-
-theorem striped_mean_counterexample : ¬ C14_striped_mean_full := by
-  intro h
-  have := h 2 (by decide) (fun r => if r = 0 then [-1] else [-5]) [-1, -5] (by decide) (by decide)
-  revert this
-  decide +kernel
+/-- For every world size and every non-empty data set (any signs), the striped mean is the
+    mean of the whole array, in whatever order the local arrays are concatenated; an empty
+    striped array has no mean (`nan`). -/
+theorem striped_mean_eq (w : Nat) (hw : 0 < w) (locals : Nat → List Rat) :
+    (∀ xs : List Rat, xs.Perm ((List.range w).flatMap locals) → xs ≠ [] →
+      stripedMean w locals = .ok (xs.sum / (xs.length : Rat))) ∧
+    ((∀ r, r < w → locals r = []) → stripedMean w locals = .error .nan) :=
+  ⟨fun xs hp hne => stripedMean_eq w hw locals xs hp hne, stripedMean_empty w hw locals⟩
 
 example : stripedMean 2 (fun r => if r = 0 then [1, 2] else [5]) = .ok (8 / 3) := by decide +kernel
+example : stripedMean 2 (fun r => if r = 0 then [-1] else [-5]) = .ok (-3) := by decide +kernel
 
 /-! ## `randind` -/
 
@@ -139,78 +126,110 @@ theorem ctrIdsMpi_inverse (w : Nat) (hw : 0 < w) (L : List Nat) (t f l : Nat)
 
 example : ctrIdsMpi 2 [3, 2, 4] [(2, 2), (1, 1)] = .ok [(0, 5), (1, 1)] := by decide
 
-/-- full statement for flat global ids: the code path does what it documents.  FALSE as
-    written (known finding `ctr-ids-mpi-flat-ragged`): `np.where` on a `RaggedArray` raises
-    as soon as two trajectories differ in length. -/
-def C14_ctrIdsMpiFlat_full : Prop :=
-  ∀ (w : Nat) (L : List Nat) (cs : List Nat), 0 < w → ctrIdsMpiFlat w L cs = ctrIdsMpiFlatIntended w L cs
+/-- the same for flat global frame ids (the `ra.where` path): id `g` is sent to the
+    `(rank, local index)` that `convert_local_indices` maps back to `g`. -/
+theorem ctrIdsMpiFlat_inverse (w : Nat) (hw : 0 < w) (L : List Nat) (g : Nat) (hg : g < L.sum) :
+    ∃ p, ctrIdsMpiFlat w L [g] = .ok [p] ∧ p.1 < w ∧ convertLocal w L p = .ok g :=
+  ctrIdMpi_flat_inverse w hw L g hg
 
-theorem ctrIdsMpiFlat_partial (w : Nat) (L : List Nat) (cs : List Nat)
-    (heq : L.all (fun l => l = L.headD 0) = true) :
-    ctrIdsMpiFlat w L cs = ctrIdsMpiFlatIntended w L cs := by
-  unfold ctrIdsMpiFlat ctrIdsMpiFlatIntended
-  rw [if_pos heq]
+example : ctrIdsMpiFlat 2 [3, 2, 4] [7, 4] = .ok [(0, 5), (1, 1)] := by decide
+example : ctrIdsMpiFlat 2 [3, 2, 4] [9] = .error .indexError := by decide
 
-theorem ctrIdsMpiFlat_counterexample : ¬ C14_ctrIdsMpiFlat_full := by
+/-! ## k-medoids under MPI: inputs and cost -/
+
+/-- full statement: k-medoids under MPI can start from scratch (as the serial code can) or
+    from a warm start.  FALSE for the code as written (known finding
+    `kmedoids-mpi-cold-start`): the cold-start branch raises before computing anything. -/
+def C14_kmedoids_inputs_full : Prop :=
+  ∀ (w : Nat) (L : List Nat) (warm : Option (List (Nat × Nat))), 0 < w →
+    (∀ ps, warm = some ps → ∀ p ∈ ps, ∃ l, L[p.1]? = some l ∧ p.2 < l) →
+    ∃ cs, kmedoidsInputsMpi w L warm = .ok cs
+
+/-- proved part: a warm start with valid `(trajectory, frame)` centers is converted to
+    `(rank, local index)` centers that `convert_local_indices` maps back to the same frames -/
+theorem kmedoids_inputs_partial (w : Nat) (hw : 0 < w) (L : List Nat) (t f l : Nat)
+    (ht : L[t]? = some l) (hf : f < l) :
+    ∃ p, kmedoidsInputsMpi w L (some [(t, f)]) = .ok [p] ∧ p.1 < w ∧
+      convertLocal w L p = .ok ((L.take t).sum + f) := by
+  obtain ⟨p, hp, hpw, hc⟩ := ctrIdMpi_inverse w hw L t f l ht hf
+  refine ⟨p, ?_, hpw, hc⟩
+  unfold kmedoidsInputsMpi ctrIdsMpi
+  simp only [List.mapM_cons, List.mapM_nil, hp]
+  rfl
+
+theorem kmedoids_inputs_counterexample : ¬ C14_kmedoids_inputs_full := by
   intro h
-  have := h 2 [3, 2] [0] (by decide)
-  revert this
-  decide
+  obtain ⟨cs, hcs⟩ := h 2 [3, 2] none (by decide) (by intro ps hps; cases hps)
+  revert hcs
+  simp [kmedoidsInputsMpi]
+
+/-- the distributed PAM step is the serial step's per-frame computation on every rank plus
+    ONE collective quantity, the cost `_msq` = `striped_array_mean` of the squared distances
+    (proposal = `randind` + `bcast`, medoid frames = `distribute_frame`, both above).  This is
+    the cost part: on the round-robin layout the distributed cost of any per-frame array `f`
+    equals the serial mean over the concatenated data.  (`mpi_pam_consistent` in full — that the
+    distributed sweep preserves `Consistent` and never raises the cost — is NOT proved here: the
+    distributed sweep itself is not modelled in `Model/Mpi.lean`; it is covered on the
+    implementation side by the invariants and by equality with serial PAM under identical
+    proposals.) -/
+theorem mpi_pam_cost_partial (w : Nat) (hw : 0 < w) (L : List Nat) (hN : 0 < L.sum) (f : Nat → Rat) :
+    stripedMean w (fun r => (localFrames w L r).map f) =
+      .ok (((List.range L.sum).map f).sum / (((List.range L.sum).map f).length : Rat)) := by
+  apply stripedMean_eq w hw
+  · have h := (localFrames_perm w hw L).map f
+    rw [List.map_flatMap] at h
+    exact h.symm
+  · intro h
+    have := congrArg List.length h
+    simp at this
+    omega
 
 /-! ## striped loading -/
 
-/-- `load_h5_as_striped` / `load_npy_as_striped` without subsampling: every key / file is
-    loaded by exactly one rank (`t % w`), each rank holds the concatenation of its rows, the
-    returned global lengths are the row lengths, and the reassembly routine applied to what
-    the ranks hold gives back the whole data set. -/
-theorem load_stripes_cover {β : Type} (w : Nat) (hw : 0 < w) (rows : List (List β)) (hT : w ≤ rows.length) :
-    (∀ r, r < w → loadStriped w rows 1 r = .ok (rows.map List.length, (stripe w rows r).flatten)) ∧
-    (∀ r, r < w → loadNpyStriped w rows 1 r = .ok (rows.map List.length, (stripe w rows r).flatten)) ∧
+/-- `load_h5_as_striped` / `load_npy_as_striped`, any subsampling stride `s ≥ 1`: every key /
+    file is loaded by exactly one rank (`t % w`); each rank holds the concatenation of its
+    (strided) rows; the returned global lengths are the lengths of the strided rows; and the
+    reassembly routine applied to what the ranks hold, with those lengths, gives back the
+    whole (strided) data set. -/
+theorem load_stripes_cover {β : Type} (w : Nat) (hw : 0 < w) (rows : List (List β)) (hT : w ≤ rows.length)
+    (s : Nat) :
+    (∀ r, r < w → loadStriped w rows s r =
+        .ok (rows.map (fun row => (everyNth s row).length), ((stripe w rows r).map (everyNth s)).flatten)) ∧
+    (∀ r, r < w → loadNpyStriped w rows s r = loadStriped w rows s r) ∧
     (∀ t r, r < w → (t ∈ stripeIdx w rows.length r ↔ t < rows.length ∧ t % w = r)) ∧
-    assembleStripedRagged w (rows.map List.length) (fun r => (stripe w rows r).flatten) = .ok rows.flatten := by
-  have hone : ∀ (row : List β), everyNth 1 row = row := by
-    intro row
-    unfold everyNth
-    induction row with
-    | nil => rfl
-    | cons a l ih => simp only [stripe]; rw [ih]
-  have hmap : ∀ r, (stripe w rows r).map (everyNth 1) = stripe w rows r := by
-    intro r
-    rw [List.map_congr_left (fun a _ => hone a), List.map_id']
+    assembleStripedRagged w (rows.map (fun row => (everyNth s row).length))
+        (fun r => ((stripe w rows r).map (everyNth s)).flatten) = .ok (rows.map (everyNth s)).flatten := by
   have hne : ∀ r, r < w → (stripe w rows r).isEmpty = false := by
     intro r hr
     have := length_stripe_pos w hw rows r (by omega)
     cases h : stripe w rows r with
     | nil => rw [h] at this; simp at this
     | cons a l => rfl
+  have hlen : rows.map (fun row => (everyNth s row).length) = (rows.map (everyNth s)).map List.length := by
+    rw [List.map_map]; rfl
   refine ⟨?_, ?_, fun t r hr => mem_stripeIdx w hw rows.length r t hr, ?_⟩
   · intro r hr
     unfold loadStriped
-    simp only [hne r hr, hmap r]
+    simp only [hne r hr]
     rfl
   · intro r hr
-    unfold loadNpyStriped
-    simp only [hne r hr, hmap r, List.length_flatten]
+    unfold loadNpyStriped loadStriped
+    simp only [hne r hr]
+    have : (((stripe w rows r).map (everyNth s)).flatten).length =
+        (stripe w (rows.map fun row => (everyNth s row).length) r).sum := by
+      rw [hlen, stripe_map, ← stripe_map w (everyNth s), List.length_flatten]
+    simp only [this]
     rfl
-  · have h := assemble_ragged_ok w hw (rows.map List.length) (by simpa using hT) rows.flatten
-      (by simp [List.length_flatten])
+  · have h := assemble_ragged_ok w hw ((rows.map (everyNth s)).map List.length)
+      (by simpa using hT) (rows.map (everyNth s)).flatten (by simp [List.length_flatten])
     rw [splitBy_lengths_flatten] at h
+    rw [hlen]
+    simp only [stripe_map] at h
     exact h
 
-/-- full statement with subsampling: the returned global lengths describe the loaded
-    (strided) rows.  FALSE as written (known findings `load-h5-striped-stride-lengths`,
-    `load-npy-striped-stride`): the unstrided lengths are returned / asserted. -/
-def C14_load_stride_full : Prop :=
-  ∀ {β : Type} (w : Nat) (rows : List (List β)) (s r : Nat), 0 < w → 0 < s → r < w → w ≤ rows.length →
-    loadStriped w rows s r = .ok (rows.map (fun row => (everyNth s row).length),
-                                  ((stripe w rows r).map (everyNth s)).flatten) ∧
-    loadNpyStriped w rows s r = loadStriped w rows s r
-
-theorem load_stride_counterexample : ¬ C14_load_stride_full := by
-  intro h
-  have := (h (β := Nat) 1 [[1, 2, 3]] 2 0 (by decide) (by decide) (by decide) (by decide)).1
-  revert this
-  decide
+example : loadStriped 2 [[1, 2, 3], [4, 5], [6]] 2 0 = .ok ([2, 1, 1], [1, 3, 6]) := by decide
+example : loadNpyStriped 2 [[1, 2, 3], [4, 5], [6]] 2 1 = .ok ([2, 1, 1], [4]) := by decide
+example : loadStriped 3 [[1, 2, 3], [4, 5]] 1 2 = .error .indexError := by decide
 
 /-! ## distributed k-centers -/
 
